@@ -184,8 +184,9 @@ def _sweep_worker(args):
         stats = Stats()
         failed = None
         fn = dict((n, f) for n, _, f in prop.sweeps(tier))[name]
+        one = getattr(prop, 'evaluate_one', prop.evaluate)     # enumerations: no variants
         for case in fn(chunk):
-            res = prop.evaluate(case)
+            res = one(case)
             bad = stats.add(case, res, known_sigs)
             if bad and failed is None:
                 failed = dict(case=res.replay_case or case, violations=[v.as_dict() for v in bad])
